@@ -212,7 +212,7 @@ theorem body_line_child_of_start (cfg : Cfg) (ls : List Str) (i s : Nat)
     s < i ∧ parentOf (parse cfg ls) i = s ∧
     (∀ p, i ∈ children (parse cfg ls) p ↔ p = s) ∧ (children (parse cfg ls) s).count i = 1 := by
   obtain ⟨h1, h2⟩ := specParentFull_of_owner cfg _ i s hs
-  have hp : parentOf (parse cfg ls) i = s := by rw [parse_parentOf cfg ls i hi, h1]
+  have hp : parentOf (parse cfg ls) i = s := by rw [parse_parentOf_full cfg ls i hi, h1]
   have hne : parentOf (parse cfg ls) i ≠ i := by omega
   obtain ⟨h3, h4⟩ := child_in_exactly_one_list (parse cfg ls) i hi hne
   rw [hp] at h3 h4
